@@ -39,6 +39,9 @@ pub enum FilterSpec {
     NoErr,
     /// (needle, accept_if_contains): keyed on the template text
     Tpl(u8, bool),
+    /// kind-based routing (`emit::kind::is_span_filter`-like): accepts only events whose `evt_kind`, read by keyed
+    /// lookup, is `span`
+    SpanKindOnly,
 }
 
 /// What a filter can see of an event that differs between a span's start and its completion.
@@ -48,6 +51,10 @@ pub struct Feat {
     pub has_extent: bool,
     pub has_err: bool,
     pub tpl: String,
+    /// `pull::<Kind>("evt_kind") == Some(Kind::Span)` (keyed lookup)
+    pub is_span: bool,
+    /// `get("span_name")` rendered (keyed lookup)
+    pub name: Option<String>,
 }
 
 impl FilterSpec {
@@ -61,6 +68,7 @@ impl FilterSpec {
             FilterSpec::FirstN(n) => nth < *n as usize,
             FilterSpec::NoErr => !f.has_err,
             FilterSpec::Tpl(needle, accept_if) => f.tpl.contains(TPL_NEEDLES[*needle as usize % TPL_NEEDLES.len()]) == *accept_if,
+            FilterSpec::SpanKindOnly => f.is_span,
         }
     }
 
@@ -68,6 +76,141 @@ impl FilterSpec {
     pub fn is_event_dependent(&self) -> bool {
         !matches!(self, FilterSpec::AcceptAll | FilterSpec::RejectAll)
     }
+}
+
+// ---- the property-key alphabet ---------------------------------------------------------------------
+//
+// Keys a span's own properties (the `span_props` of `SpanGuard::new`, `with_props`, `map_props`) may use.
+// Indices 0..6 are plain user keys; the rest COLLIDE with emit's well-known keys:
+//   6, 7    the span's own keys (`Span` yields them itself, before its properties)
+//   8, 9    keys a completion may add (`lvl`, `err`)
+//   10..13  keys of the span context in the ambient frame (ids)
+//   13..    keys that name event metadata / metric fields; on a span they are ordinary properties
+pub const KEYS: [&str; 21] = [
+    "a",
+    "b",
+    "c",
+    "k0",
+    "k1",
+    "user_id",
+    "span_name",
+    "evt_kind",
+    "lvl",
+    "err",
+    "trace_id",
+    "span_id",
+    "span_parent",
+    "ts",
+    "ts_start",
+    "mdl",
+    "tpl",
+    "msg",
+    "metric_name",
+    "metric_agg",
+    "metric_value",
+];
+pub const N_PLAIN_KEYS: usize = 6;
+
+pub fn is_reserved_key(k: &str) -> bool {
+    KEYS[N_PLAIN_KEYS..].contains(&k)
+}
+
+pub fn is_own_key(k: &str) -> bool {
+    k == "span_name" || k == "evt_kind"
+}
+
+pub fn is_id_key(k: &str) -> bool {
+    k == "trace_id" || k == "span_id" || k == "span_parent"
+}
+
+/// A generated property value: plain keys carry integers; colliding keys carry either an integer or a string that
+/// looks like a legitimate value of that well-known key (another name, another kind, a level, a well-formed id).
+#[derive(Debug, Clone, Copy, PartialEq)]
+pub enum PVal {
+    Int(i64),
+    Str(&'static str),
+}
+
+const V_NAME: [&str; 4] = ["stale", "op", "renamed", ""];
+const V_KIND: [&str; 4] = ["metric", "span", "stale", "Span"];
+const V_LVL: [&str; 4] = ["debug", "info", "warn", "error"];
+const V_ERR: [&str; 4] = ["user-err", "panicked", "a-err", "stale"];
+const V_TRACE: [&str; 4] = ["0123456789abcdef0123456789abcdef", "stale", "fedcba9876543210fedcba9876543210", "89abcdef0123456789abcdef01234567"];
+const V_SPAN: [&str; 4] = ["0123456789abcdef", "stale", "fedcba9876543210", "89abcdef01234567"];
+const V_OTHER: [&str; 4] = ["stale", "x", "2024-01-01T00:00:00Z", "sum"];
+
+pub fn key_of(k: u8) -> &'static str {
+    KEYS[k as usize % KEYS.len()]
+}
+
+pub fn val_of(k: u8, v: i8) -> PVal {
+    let key = key_of(k);
+    if !is_reserved_key(key) {
+        return PVal::Int(v as i64);
+    }
+    let u = v as u8 as usize % 5;
+    if u == 4 {
+        return PVal::Int(v as i64);
+    }
+    PVal::Str(match key {
+        "span_name" => V_NAME[u],
+        "evt_kind" => V_KIND[u],
+        "lvl" => V_LVL[u],
+        "err" => V_ERR[u],
+        "trace_id" => V_TRACE[u],
+        "span_id" | "span_parent" => V_SPAN[u],
+        _ => V_OTHER[u],
+    })
+}
+
+impl PVal {
+    pub fn text(&self) -> String {
+        match self {
+            PVal::Int(i) => i.to_string(),
+            PVal::Str(s) => s.to_string(),
+        }
+    }
+
+    pub fn value(&self) -> emit::Value<'static> {
+        match self {
+            PVal::Int(i) => emit::Value::from(*i),
+            PVal::Str(s) => emit::Value::from(*s),
+        }
+    }
+}
+
+/// Could `val` be a generated value of an id key? (the real ids are 32 / 16 hex digits drawn from the counter rng,
+/// which never produces one of the table entries)
+pub fn is_generated_id_val(val: &str) -> bool {
+    V_TRACE.contains(&val) || V_SPAN.contains(&val) || (val.len() <= 4 && val.parse::<i8>().is_ok())
+}
+
+/// The names of the keyed-lookup views `St::record` takes of every recorded event (see `views_of`).
+pub const VIEW_GENERIC: &str = "Props::get on the event's props";
+
+fn views_of<P: Props>(props: &P) -> Vec<(&'static str, Vec<Option<String>>)> {
+    use emit::props::ErasedProps;
+    fn all(get: impl Fn(&'static str) -> Option<String>) -> Vec<Option<String>> {
+        KEYS.iter().map(|k| get(k)).collect()
+    }
+    let erased: &dyn ErasedProps = props;
+    vec![
+        (VIEW_GENERIC, all(|k| props.get(k).map(|v| v.to_string()))),
+        ("get through &dyn ErasedProps", all(|k| erased.get(k).map(|v| v.to_string()))),
+        ("get on props.and_props(Empty)", all(|k| props.and_props(emit::Empty).get(k).map(|v| v.to_string()))),
+        ("get on Empty.and_props(props)", all(|k| emit::Empty.and_props(props).get(k).map(|v| v.to_string()))),
+        ("pull::<Value>", all(|k| props.pull::<emit::Value, _>(k).map(|v| v.to_string()))),
+    ]
+}
+
+/// Keyed-lookup views of a bare `Span` (what a custom `Completion` is handed).
+pub fn span_views<P: Props>(span: &emit::span::Span<P>) -> Vec<(&'static str, Vec<Option<String>>)> {
+    let all = |get: &dyn Fn(&'static str) -> Option<String>| -> Vec<Option<String>> { KEYS.iter().map(|k| get(k)).collect() };
+    let erased = span.erase();
+    vec![
+        ("Props::get on the Span", all(&|k| span.get(k).map(|v| v.to_string()))),
+        ("Props::get on Span::erase()", all(&|k| erased.get(k).map(|v| v.to_string()))),
+    ]
 }
 
 pub struct FilterLog {
@@ -138,11 +281,78 @@ pub struct Rec {
     pub cur_span: Option<u64>,
     pub panicking: bool,
     pub phase: u32,
+    /// keyed lookups: (view name, result rendered with Display for every key of `KEYS`, in that order)
+    pub views: Vec<(&'static str, Vec<Option<String>>)>,
+    /// `pull::<Str>("span_name")`
+    pub name_pulled: Option<String>,
+    /// `emit::kind::is_span_filter().matches(evt)` / `is_metric_filter().matches(evt)`
+    pub span_filter_matches: bool,
+    pub metric_filter_matches: bool,
+    /// `Span::name()` (custom completions only)
+    pub span_name_accessor: Option<String>,
 }
 
 impl Rec {
     pub fn prop(&self, key: &str) -> Option<&str> {
         self.props.iter().find(|(k, _)| k == key).map(|(_, v)| v.as_str())
+    }
+
+    /// keyed lookup (generic `Props::get`) of one of `KEYS`
+    pub fn keyed(&self, key: &str) -> Option<&str> {
+        let i = KEYS.iter().position(|k| *k == key)?;
+        self.views.first().and_then(|(_, v)| v[i].as_deref())
+    }
+
+    /// Every keyed view of `key` must give `want`; Err((view, got)) for the first one that does not.
+    pub fn all_views_give(&self, key: &str, want: Option<&str>) -> Result<(), (&'static str, Option<String>)> {
+        let i = KEYS.iter().position(|k| *k == key).expect("probe key");
+        for (view, vals) in &self.views {
+            if vals[i].as_deref() != want {
+                return Err((view, vals[i].clone()));
+            }
+        }
+        Ok(())
+    }
+
+    /// same for a key that need not be one of `KEYS` (domain B's `p`, `q`): falls back to the enumeration's first
+    /// entry when the key was not probed
+    pub fn all_views_give_any(&self, key: &str, want: Option<&str>) -> Result<(), (&'static str, Option<String>)> {
+        if KEYS.contains(&key) {
+            self.all_views_give(key, want)
+        } else if self.prop(key) != want {
+            Err(("first entry by enumeration", self.prop(key).map(|s| s.to_string())))
+        } else {
+            Ok(())
+        }
+    }
+
+    /// The enumeration with the entries that are NOT the span's own properties taken out, judged by position and
+    /// count only (never by key alone, because the span's own properties may use any of these keys):
+    /// * the first `evt_kind` and the first `span_name` entry (the span's own kind and name);
+    /// * the first `lvl` / `err` entry when the event has more of them than the span's properties `user` do
+    ///   (the one a completion added);
+    /// * id entries (`trace_id`, `span_id`, `span_parent`) whose value cannot be a generated property value
+    ///   (the ambient span context).
+    pub fn user_props_given(&self, user: &[(String, String)]) -> Vec<(String, String)> {
+        let count = |v: &[(String, String)], key: &str| v.iter().filter(|(k, _)| k == key).count();
+        let mut out = Vec::new();
+        let mut skip_first: Vec<&str> = vec!["evt_kind", "span_name"];
+        for key in ["lvl", "err"] {
+            if count(&self.props, key) > count(user, key) {
+                skip_first.push(key);
+            }
+        }
+        for (k, v) in &self.props {
+            if let Some(i) = skip_first.iter().position(|s| s == k) {
+                skip_first.remove(i);
+                continue;
+            }
+            if is_id_key(k) && !is_generated_id_val(v) {
+                continue;
+            }
+            out.push((k.clone(), v.clone()));
+        }
+        out
     }
 
     /// the features of this (completion) event as a filter would have seen them
@@ -152,16 +362,9 @@ impl Rec {
             has_extent: self.extent.is_some(),
             has_err: self.prop("err").is_some(),
             tpl: self.tpl.clone(),
+            is_span: self.kind_is_span,
+            name: self.keyed("span_name").map(|s| s.to_string()),
         }
-    }
-
-    pub fn user_props(&self) -> Vec<(String, String)> {
-        const WELL_KNOWN: [&str; 7] = ["evt_kind", "span_name", "lvl", "err", "trace_id", "span_id", "span_parent"];
-        self.props
-            .iter()
-            .filter(|(k, _)| !WELL_KNOWN.contains(&k.as_str()))
-            .cloned()
-            .collect()
     }
 }
 
@@ -178,6 +381,10 @@ pub struct St {
     pub filters: [RefCell<FilterLog>; 2],
     /// (trace_id, span_id) of every event handed to a filter
     pub filter_seen: RefCell<Vec<(Option<u128>, Option<u64>)>>,
+    /// every `trace_id` / `span_id` / `span_parent` entry (by enumeration) of every event handed to a filter
+    pub filter_seen_ids: RefCell<Vec<Vec<(String, String)>>>,
+    /// domain B: which rename / re-propertying variant the guard sites use
+    pub variant: Cell<u32>,
 }
 
 impl St {
@@ -195,6 +402,8 @@ impl St {
                 RefCell::new(FilterLog { spec: when, evals: Vec::new() }),
             ],
             filter_seen: RefCell::new(Vec::new()),
+            filter_seen_ids: RefCell::new(Vec::new()),
+            variant: Cell::new(0),
         })
     }
 
@@ -228,8 +437,32 @@ impl St {
             cur_span: cur.span_id().map(|s| s.to_u64()),
             panicking: std::thread::panicking(),
             phase: self.phase.get(),
+            views: {
+                let mut views = views_of(evt.props());
+                let erased = evt.erase();
+                views.push(("get on Event::erase().props()", KEYS.iter().map(|k| erased.props().get(*k).map(|v| v.to_string())).collect()));
+                views
+            },
+            name_pulled: evt.props().pull::<emit::Str, _>("span_name").map(|s| s.to_string()),
+            span_filter_matches: emit::kind::is_span_filter().matches(evt),
+            metric_filter_matches: emit::kind::is_metric_filter().matches(evt),
+            span_name_accessor: None,
         };
         self.recs.borrow_mut().push(rec);
+    }
+
+    /// `Span::name()` as seen by a custom completion
+    pub fn add_span_name(&self, name: String) {
+        if let Some(r) = self.recs.borrow_mut().last_mut() {
+            r.span_name_accessor = Some(name);
+        }
+    }
+
+    /// add further keyed views to the record that was just taken
+    pub fn add_views(&self, more: Vec<(&'static str, Vec<Option<String>>)>) {
+        if let Some(r) = self.recs.borrow_mut().last_mut() {
+            r.views.extend(more);
+        }
     }
 }
 
@@ -282,11 +515,21 @@ impl Filter for SpecFilter {
         let t = evt.props().pull::<emit::TraceId, _>("trace_id").map(|t| t.to_u128());
         let s = evt.props().pull::<emit::SpanId, _>("span_id").map(|s| s.to_u64());
         self.st.filter_seen.borrow_mut().push((t, s));
+        let mut ids = Vec::new();
+        let _ = evt.props().for_each(|k, v| {
+            if is_id_key(k.get()) {
+                ids.push((k.to_string(), v.to_string()));
+            }
+            ControlFlow::Continue(())
+        });
+        self.st.filter_seen_ids.borrow_mut().push(ids);
         let feat = Feat {
             lvl: evt.props().pull::<emit::Level, _>("lvl"),
             has_extent: evt.extent().is_some(),
             has_err: evt.props().get("err").is_some(),
             tpl: evt.tpl().to_string(),
+            is_span: evt.props().pull::<emit::Kind, _>("evt_kind") == Some(emit::Kind::Span),
+            name: evt.props().get("span_name").map(|v| v.to_string()),
         };
         let mut log = self.st.filters[self.which].borrow_mut();
         let verdict = log.spec.verdict(&feat, log.evals.len());
